@@ -829,11 +829,12 @@ func blockObs(n *node, h uint64, txs []pb.Transaction) string {
 	if m := n.ldg.GetChainMeta(); m.Height < h || (m.Height == h && m.BlockHash.String() != blk.BlockHash.String()) {
 		plink += "+meta"
 	}
-	return fmt.Sprintf("h=%d rc=[%s] counter={%s} timeout={%s} multi={%s} ## rawtimeout={%s} rawmulti={%s} hash=%s sroot=%s troot=%s rroot=%s toroot=%s gas=[%s] plink=%s route=%s",
-		h, strings.Join(rc, " "), strings.Join(cs, ";"), strings.Join(ts, ";"), strings.Join(ms, ";"),
+	rverdict, rcanon := routeObs(n, h)
+	return fmt.Sprintf("h=%d rc=[%s] counter={%s} timeout={%s} multi={%s} route={%s} ## rawtimeout={%s} rawmulti={%s} hash=%s sroot=%s troot=%s rroot=%s toroot=%s gas=[%s] plink=%s route=%s",
+		h, strings.Join(rc, " "), strings.Join(cs, ";"), strings.Join(ts, ";"), strings.Join(ms, ";"), rcanon,
 		strings.Join(tsRaw, ";"), strings.Join(msRaw, ";"),
 		short(blk.BlockHash), short(blk.BlockHeader.StateRoot), short(blk.BlockHeader.TxRoot), short(blk.BlockHeader.ReceiptRoot), short(blk.BlockHeader.TimeoutRoot),
-		strings.Join(gas, ","), plink, routeObs(n, h))
+		strings.Join(gas, ","), plink, rverdict)
 }
 
 func sortedCopy(l []string) []string {
